@@ -95,7 +95,7 @@ def r_who_create_task(ctx: Ctx, rule="R01.2"):
     for n, arg, targets in sites:
         if targets and any(t.name == "_task_wrapper" for t in targets):
             n_wrap += 1
-            rep.ob(rule, "pool tasks are created only inside _start_task", ctx.hosts(n.func) <= {"_start_task"}, node=n,
+            rep.ob(rule, "pool tasks are created only inside _start_task", ctx.hosts_of(n) <= {"_start_task"}, node=n,
                    detail=f"created in {n.func.short}")
         elif targets and all(is_spawner(ctx, t) for t in targets):
             n_spawn += 1
@@ -189,7 +189,7 @@ def r_who_release(ctx: Ctx, rule="R01.3"):
     rel = ctx.effects(fields=["_enough_room"], kinds=["release", "maybe-release"])
     rep.floor(rule, "release sites of the pool semaphore", len(rel), 1)
     for e in rel:
-        in_ending = ctx.hosts(e.node.func) <= {"_task_ending"} and ctx.in_pool(e.node.func)
+        in_ending = ctx.hosts_of(e.node) <= {"_task_ending"} and ctx.in_pool(e.node.func)
         if in_ending:
             rep.ob(rule, "the pool slot is released only by _task_ending (or by the acquirer for a slot it still owns)", True, node=e.node)
         else:
@@ -258,12 +258,12 @@ def r_who_write_semaphore(ctx: Ctx, rule="R01.4"):
     rep.floor(rule, "writes of the semaphore or its counter", len(effs), 2)
     for e in effs:
         rep.ob(rule, "semaphore object/counter written only by the constructor and the pool_size setter",
-               ctx.hosts(e.node.func) <= {"__init__", "pool_size.setter"} and ctx.in_pool(e.node.func), node=e.node, detail=f"{e.kind} {e.path} in {e.node.func.short}")
+               ctx.hosts_of(e.node) <= {"__init__", "pool_size.setter"} and ctx.in_pool(e.node.func), node=e.node, detail=f"{e.kind} {e.path} in {e.node.func.short}")
     # acquire sites: only _start_task takes pool slots
     acq = ctx.effects(fields=["_enough_room"], kinds=["acquire", "maybe-acquire"])
     rep.floor(rule, "acquire sites of the pool semaphore", len(acq), 1)
     for e in acq:
-        rep.ob(rule, "pool slots are acquired only by _start_task", ctx.hosts(e.node.func) <= {"_start_task"}, node=e.node)
+        rep.ob(rule, "pool slots are acquired only by _start_task", ctx.hosts_of(e.node) <= {"_start_task"}, node=e.node)
         # the acquire must be awaited (an un-awaited acquire() acquires nothing)
         g = ctx.an.cfg(e.node.func)
         awaited = any(n.op == "await" and strip_cast(n.ast.value) is e.node.ast for n in g.nodes)
@@ -304,8 +304,8 @@ def r_is_full(ctx: Ctx, rule="R01.6"):
     for f in ctx.pool_funcs("is_full"):
         rets = [n for n in ast.walk(f.node) if isinstance(n, ast.Return)]
         ok = None
-        if len(rets) == 1 and isinstance(rets[0].value, ast.Call):
-            c = rets[0].value
+        if len(rets) == 1 and rets[0].value is not None and isinstance(ctx.vals.resolve(f, rets[0].value), ast.Call):
+            c = ctx.vals.resolve(f, rets[0].value)
             if isinstance(c.func, ast.Attribute) and c.func.attr == "locked" and ctx.eff.paths(f).of(c.func.value) == SLOT and not c.args:
                 ok = True
         rep.ob(rule, "is_full == self._enough_room.locked()", ok, func=f, construct=rets[0] if rets else "(no return)")
@@ -743,7 +743,7 @@ def r_registry_who(ctx: Ctx, rule="R03.1"):
             kind = e.kind.replace("maybe-", "")
             kind = {"pop": "remove", "popitem": "remove", "update": "insert", "aug": "assign"}.get(kind, kind)
             allowed = table.get(kind, set())
-            hosts = ctx.hosts(e.node.func)
+            hosts = ctx.hosts_of(e.node)
             ok = hosts <= allowed and ctx.in_pool(e.node.func)
             if kind == "assign" and not ok and hosts <= {"flush", "gather_and_close"} and fld != "_tasks_running" or (kind == "assign" and hosts <= {"gather_and_close"}):
                 ok = True  # rebuilding idiom; judged by SNAPSHOT-FORGET
@@ -1090,7 +1090,7 @@ def r_spawner_registry_who(ctx: Ctx, rule: str):
             kind = e.kind.replace("maybe-", "")
             kind = {"pop": "remove", "popitem": "remove", "discard": "remove", "update": "insert", "add": "insert", "aug": "assign"}.get(kind, kind)
             allowed = table.get(kind, set())
-            hosts = ctx.hosts(e.node.func)
+            hosts = ctx.hosts_of(e.node)
             n += 1
             rep.ob(rule, f"{kind} on {fld} only by {sorted(allowed)}", hosts <= allowed and ctx.in_pool(e.node.func), node=e.node,
                    detail=f"{e.kind} {e.path} on behalf of {sorted(hosts)}")
